@@ -156,6 +156,7 @@ def cmd_check(prop, tier):
     results = run_shards(jobs)
 
     rc = 0
+    soft_goal_errors = []  # a goal that is never reached is a harness error -- unless a replayed violation explains it
     lines = []
     per_h = []
     total_eval = total_distinct = 0
@@ -194,7 +195,7 @@ def cmd_check(prop, tier):
         missing = [g for g in h.goals if g not in goals]
         if missing and not errors:
             if exh:
-                rc = max(rc, 3)
+                soft_goal_errors.append(h.name)
                 lines.append(f"HARNESS-ERROR: {h.name}: coverage goals never reached (vacuous?): {missing}")
             else:
                 lines.append(f"INCONCLUSIVE: {h.name}: goals not reached within budget: {missing}")
@@ -275,6 +276,8 @@ def cmd_check(prop, tier):
                 violations=hviol,
             )
         )
+    if soft_goal_errors and rc == 0:
+        rc = 3
     wall = time.time() - t0
     level = LEVELS.get(prop, "exploration")
     ev = {
